@@ -455,6 +455,12 @@ def singular_bins(d, ctx):
         if k in ('target-lowrank', 'both-lowrank'):
             a = gen.cnormal(rng, (D, d.int(1, D - 1)))
             xx[f] = a @ a.conj().T
+    # single-precision PSD matrices in one case of four (guards taken from
+    # the wrong dtype vanish there)
+    single = d.aux(134).integers(0, 4) == 0
+    if single:
+        xx, nn = xx.astype(np.complex64), nn.astype(np.complex64)
+        cond = max(cond, 1.0) * 1e4        # rounding of the coarser dtype
     which = d.choice(['souden', 'wmwf'])
     ref = d.int(0, D - 1)
     # the automatic reference channel ("Also zero matrices work") in one case
@@ -467,7 +473,7 @@ def singular_bins(d, ctx):
         ref = None
     mu = d.choice([1.0, 0.5, 10.0])
     ctx.describe(F=F, D=D, bad=bad, kinds=kinds, which=which, ref=ref)
-    ctx.label(which, *set(kinds))
+    ctx.label(which, *set(kinds), 'complex64' if single else 'complex128')
 
     def call(x_, n_):
         if which == 'souden':
